@@ -213,6 +213,83 @@ theorem hTilde_succ (side : Side) (sqrt : K → K) (A : CRS K) (P : Vec K → Ve
     · rw [if_pos h2, if_pos h2, h2]
     · rw [if_neg h2, if_neg h2]
 
+/-- **one more Arnoldi step, breakdown or not** (array level; nothing assumed about `P` but the size of `A' u`): if
+`v[0..m]` is orthonormal after `m` passes and the root is exact on `⟨w_m,w_m⟩`, then after pass `m` the old vectors are
+untouched, `v[m+1]` has length `n`, is orthogonal to `v[0..m]`, is a unit vector unless `H̃(m+1,m) = 0`, and
+`A' v[m] = Σ_{k ≤ m+1} H̃(k,m) v[k]` — in a breakdown because `w_m = 0` and `H̃(m+1,m) = 0`. -/
+theorem arnoldi_last_step (side : Side) (sqrt : K → K) (A : CRS K) (P : Vec K → Vec K) (st : GMRES.St K) (n m : ℕ)
+    (hAsz : ∀ u : Vec K, (Aop side P A u).size = n)
+    (hsize : ∀ a, a ≤ m → ((innerPass side sqrt A P st m).w.v.get a).size = n)
+    (hon : ∀ a b, a ≤ m → b ≤ m → vecOf n ((innerPass side sqrt A P st m).w.v.get a)
+        ⬝ᵥ vecOf n ((innerPass side sqrt A P st m).w.v.get b) = if a = b then 1 else 0)
+    (hroot : RootAt sqrt (stdIp (orthVecOf side sqrt A P (innerPass side sqrt A P st m))
+      (orthVecOf side sqrt A P (innerPass side sqrt A P st m)))) :
+    (∀ a, a ≤ m → (innerPass side sqrt A P st (m + 1)).w.v.get a = (innerPass side sqrt A P st m).w.v.get a) ∧
+    ((innerPass side sqrt A P st (m + 1)).w.v.get (m + 1)).size = n ∧
+    (∀ a, a ≤ m → vecOf n ((innerPass side sqrt A P st m).w.v.get a)
+        ⬝ᵥ vecOf n ((innerPass side sqrt A P st (m + 1)).w.v.get (m + 1)) = 0) ∧
+    (arnoldiNorm side sqrt A P st m ≠ 0 → vecOf n ((innerPass side sqrt A P st (m + 1)).w.v.get (m + 1))
+        ⬝ᵥ vecOf n ((innerPass side sqrt A P st (m + 1)).w.v.get (m + 1)) = 1) ∧
+    vecOf n (Aop side P A ((innerPass side sqrt A P st m).w.v.get m))
+      = ∑ k ∈ range (m + 2), hTilde side sqrt A P st (m + 1) k m
+          • vecOf n ((innerPass side sqrt A P st (m + 1)).w.v.get k) := by
+  have hj := innerPass_j side sqrt A P st m
+  unfold orthVecOf at hroot
+  rw [hj] at hroot
+  have hv' := innerPass_v_succ side sqrt A P st m
+  have hHt := hTilde_succ side sqrt A P st m
+  have hvn : (stepV side A P (innerPass side sqrt A P st m)).size = n := by
+    rw [stepV_eq]; exact hAsz _
+  have hTv : Aop side P A ((innerPass side sqrt A P st m).w.v.get m) = stepV side A P (innerPass side sqrt A P st m) := by
+    rw [stepV_eq, hj]
+  have hbd : arnoldiNorm side sqrt A P st m
+      = (orth stdIp sqrt (innerPass side sqrt A P st m).w.v m (innerPass side sqrt A P st m).w.h.H
+          (stepV side A P (innerPass side sqrt A P st m))).1.get (m + 1) m := rfl
+  generalize innerPass side sqrt A P st m = t at hsize hon hj hroot hv' hHt hvn hTv hbd
+  have hO : Orthonormal stdIp n t.w.v m :=
+    ⟨hsize, fun a b ha hb => by rw [stdIp_vecOf n _ _ (hsize a ha) (hsize b hb)]; exact hon a b ha hb⟩
+  have hosz : (orth stdIp sqrt t.w.v m t.w.h.H (stepV side A P t)).2.size = n :=
+    orth_size stdIp sqrt n (stdIp_ipOK n) t.w.v m t.w.h.H _ hO hvn
+  have hget : ∀ a, (innerPass side sqrt A P st (m + 1)).w.v.get a
+      = if a = m + 1 then (orth stdIp sqrt t.w.v m t.w.h.H (stepV side A P t)).2 else t.w.v.get a := by
+    intro a; rw [hv', setF_get]
+  have hold : ∀ a, a ≤ m → (innerPass side sqrt A P st (m + 1)).w.v.get a = t.w.v.get a := by
+    intro a ha; rw [hget, if_neg (by omega)]
+  have hnew : (innerPass side sqrt A P st (m + 1)).w.v.get (m + 1)
+      = (orth stdIp sqrt t.w.v m t.w.h.H (stepV side A P t)).2 := by rw [hget, if_pos rfl]
+  refine ⟨hold, by rw [hnew]; exact hosz, ?_, ?_, ?_⟩
+  · intro a ha
+    rw [hnew, ← stdIp_vecOf n _ _ (hsize a ha) hosz, (stdIp_ipOK n).symm _ _ (hsize a ha) hosz]
+    exact orth_orthogonal stdIp sqrt n (stdIp_ipOK n) t.w.v m t.w.h.H _ hO hvn a ha
+  · intro hne
+    rw [hnew, ← stdIp_vecOf n _ _ hosz hosz]
+    exact orth_normalised stdIp sqrt n (stdIp_ipOK n) t.w.v m t.w.h.H _ hO hvn hroot (by rw [← hbd]; exact hne)
+  · rw [hTv, sum_range_succ, hnew]
+    have hsum : ∑ k ∈ range (m + 1), hTilde side sqrt A P st (m + 1) k m
+          • vecOf n ((innerPass side sqrt A P st (m + 1)).w.v.get k)
+        = ∑ k ∈ range (m + 1), (orth stdIp sqrt t.w.v m t.w.h.H (stepV side A P t)).1.get k m
+          • vecOf n (t.w.v.get k) := by
+      apply sum_congr rfl
+      intro k hk
+      have hk' : k ≤ m := by have := mem_range.mp hk; omega
+      rw [hold k hk', hHt, if_neg (Nat.lt_irrefl m), if_pos rfl]
+    rw [hsum, hHt, if_neg (Nat.lt_irrefl m), if_pos rfl]
+    funext τ
+    simp only [Pi.add_apply, Finset.sum_apply, Pi.smul_apply, smul_eq_mul]
+    show (stepV side A P t).getD τ.val 0 = _
+    by_cases hne : arnoldiNorm side sqrt A P st m = 0
+    · rw [hbd] at hne
+      obtain ⟨hw0, hrel⟩ := orth_arnoldi_breakdown stdIp sqrt n (stdIp_ipOK n) t.w.v m t.w.h.H _ hO hvn hroot hne
+      have hwsz := (mgs_inv stdIp n (stdIp_ipOK n) t.w.v m t.w.h.H _ hO hvn).1
+      have hwz := congrFun (vecOf_zero_of_stdIp_self n _ hwsz hw0) τ
+      rw [hrel τ.val τ.isLt, hne, zero_mul, add_zero]
+      show _ + vecOf n _ τ = _
+      rw [hwz]
+      simp only [Pi.zero_apply, add_zero, vecOf]
+    · rw [hbd] at hne
+      rw [orth_arnoldi stdIp sqrt n (stdIp_ipOK n) t.w.v m t.w.h.H _ hO hvn hne τ.val τ.isLt]
+      rfl
+
 variable (n : ℕ) (A : CRS K) (hA : A.WF) (hn : A.nrows = n) (hm : A.ncols = n)
   (P : Vec K → Vec K) (Pl : (Fin n → K) →ₗ[K] (Fin n → K)) (hP : PDenotes n P Pl) (side : Side) (sqrt : K → K)
   (f : Vec K) (st : GMRES.St K)
@@ -235,45 +312,18 @@ theorem cycle_basis_last (m : ℕ) (hroots : RootsExact side sqrt A P st (m + 1)
     vecOf n st.w.r = st.normR • vecOf n ((innerPass side sqrt A P st (m + 1)).w.v.get 0) := by
   obtain ⟨hsize, hon, harn, hr0⟩ := cycle_basis n A hA hn hm P Pl hP side sqrt f st hst m
     (hroots.mono (Nat.le_succ m)) hnb
-  have hj := innerPass_j side sqrt A P st m
-  have hroot := hroots.orth m (Nat.lt_succ_self m)
-  unfold orthVecOf at hroot
-  rw [hj] at hroot
-  have hv' := innerPass_v_succ side sqrt A P st m
+  obtain ⟨hold, hnsz, horth, hunit, hcol⟩ := arnoldi_last_step side sqrt A P st n m
+    (Aop_size_all n A hA hn hm P Pl hP side) hsize hon (hroots.orth m (Nat.lt_succ_self m))
   have hHt := hTilde_succ side sqrt A P st m
-  have hvn : (stepV side A P (innerPass side sqrt A P st m)).size = n := by
-    rw [stepV_eq]; exact Aop_size_all n A hA hn hm P Pl hP side _
-  have hTv : Tl side (matOf A n n) Pl (vecOf n ((innerPass side sqrt A P st m).w.v.get m))
-      = vecOf n (stepV side A P (innerPass side sqrt A P st m)) := by
-    rw [stepV_eq, hj, (Aop_vec n A hA hn hm P Pl hP side _ (hsize m (Nat.le_refl m))).2]
-  have hbd : arnoldiNorm side sqrt A P st m
-      = (orth stdIp sqrt (innerPass side sqrt A P st m).w.v m (innerPass side sqrt A P st m).w.h.H
-          (stepV side A P (innerPass side sqrt A P st m))).1.get (m + 1) m := rfl
-  generalize innerPass side sqrt A P st m = t at hsize hon harn hr0 hj hroot hv' hHt hvn hTv hbd
-  have hO : Orthonormal stdIp n t.w.v m :=
-    ⟨hsize, fun a b ha hb => by rw [stdIp_vecOf n _ _ (hsize a ha) (hsize b hb)]; exact hon a b ha hb⟩
-  have hosz : (orth stdIp sqrt t.w.v m t.w.h.H (stepV side A P t)).2.size = n :=
-    orth_size stdIp sqrt n (stdIp_ipOK n) t.w.v m t.w.h.H _ hO hvn
-  have hget : ∀ a, (innerPass side sqrt A P st (m + 1)).w.v.get a
-      = if a = m + 1 then (orth stdIp sqrt t.w.v m t.w.h.H (stepV side A P t)).2 else t.w.v.get a := by
-    intro a; rw [hv', setF_get]
-  have hold : ∀ a, a ≤ m → (innerPass side sqrt A P st (m + 1)).w.v.get a = t.w.v.get a := by
-    intro a ha; rw [hget, if_neg (by omega)]
-  have hnew : (innerPass side sqrt A P st (m + 1)).w.v.get (m + 1)
-      = (orth stdIp sqrt t.w.v m t.w.h.H (stepV side A P t)).2 := by rw [hget, if_pos rfl]
-  refine ⟨?_, ?_, ?_, ?_, ?_, ?_⟩
+  refine ⟨?_, ?_, ?_, hunit, ?_, ?_⟩
   · intro a ha
     by_cases h1 : a = m + 1
-    · rw [h1, hnew]; exact hosz
+    · rw [h1]; exact hnsz
     · rw [hold a (by omega)]; exact hsize a (by omega)
   · intro a b ha hb
     rw [hold a ha, hold b hb]; exact hon a b ha hb
   · intro a ha
-    rw [hold a ha, hnew, ← stdIp_vecOf n _ _ (hsize a ha) hosz, (stdIp_ipOK n).symm _ _ (hsize a ha) hosz]
-    exact orth_orthogonal stdIp sqrt n (stdIp_ipOK n) t.w.v m t.w.h.H _ hO hvn a ha
-  · intro hne
-    rw [hnew, ← stdIp_vecOf n _ _ hosz hosz]
-    exact orth_normalised stdIp sqrt n (stdIp_ipOK n) t.w.v m t.w.h.H _ hO hvn hroot (by rw [← hbd]; exact hne)
+    rw [hold a ha]; exact horth a ha
   · intro i hi
     by_cases him : i < m
     · rw [hold i (by omega), harn i him]
@@ -283,31 +333,8 @@ theorem cycle_basis_last (m : ℕ) (hroots : RootsExact side sqrt A P st (m + 1)
       rw [hold k hk', hHt, if_pos him]
     · have hi' : i = m := by omega
       subst hi'
-      rw [hold i (Nat.le_refl i), hTv, sum_range_succ, hnew]
-      have hsum : ∑ k ∈ range (i + 1), hTilde side sqrt A P st (i + 1) k i
-            • vecOf n ((innerPass side sqrt A P st (i + 1)).w.v.get k)
-          = ∑ k ∈ range (i + 1), (orth stdIp sqrt t.w.v i t.w.h.H (stepV side A P t)).1.get k i
-            • vecOf n (t.w.v.get k) := by
-        apply sum_congr rfl
-        intro k hk
-        have hk' : k ≤ i := by have := mem_range.mp hk; omega
-        rw [hold k hk', hHt, if_neg him, if_pos rfl]
-      rw [hsum, hHt, if_neg him, if_pos rfl]
-      funext τ
-      simp only [Pi.add_apply, Finset.sum_apply, Pi.smul_apply, smul_eq_mul]
-      show (stepV side A P t).getD τ.val 0 = _
-      by_cases hne : arnoldiNorm side sqrt A P st i = 0
-      · rw [hbd] at hne
-        obtain ⟨hw0, hrel⟩ := orth_arnoldi_breakdown stdIp sqrt n (stdIp_ipOK n) t.w.v i t.w.h.H _ hO hvn hroot hne
-        have hwsz := (mgs_inv stdIp n (stdIp_ipOK n) t.w.v i t.w.h.H _ hO hvn).1
-        have hwz := congrFun (vecOf_zero_of_stdIp_self n _ hwsz hw0) τ
-        rw [hrel τ.val τ.isLt, hne, zero_mul, add_zero]
-        show _ + vecOf n _ τ = _
-        rw [hwz]
-        simp only [Pi.zero_apply, add_zero, vecOf]
-      · rw [hbd] at hne
-        rw [orth_arnoldi stdIp sqrt n (stdIp_ipOK n) t.w.v i t.w.h.H _ hO hvn hne τ.val τ.isLt]
-        rfl
+      rw [hold i (Nat.le_refl i), ← (Aop_vec n A hA hn hm P Pl hP side _ (hsize i (Nat.le_refl i))).2]
+      exact hcol
   · rw [hold 0 (Nat.zero_le m)]; exact hr0
 
 /-- **least-squares identity of the cycle, breakdown allowed in the last pass**: for every coefficient vector `y` -/
